@@ -83,6 +83,23 @@ CHECKS["C04"] = dict(
     technique="SMT translation validation (z3 NRA) against labelled dual-number perturbations",
     design="§4 C04", engine="E1")
 
+CHECKS["C21"] = dict(
+    level="translation_validation",
+    text="replace(e, m) runs for (expression incl. derivatives, restrictions, variables) x (mapping incl. zero and "
+         "python-number images, swaps, self-referential images, absent keys), one multi-integral form and a "
+         "three-step replace sequence over variables; z3 proves the result equals e evaluated with the mapped "
+         "terminals (and their derivatives) overridden by their images; shape-changing mappings must raise.",
+    technique="SMT translation validation (z3 NRA) against substitution semantics in the environment",
+    design="§4 C21", engine="E1")
+CHECKS["C14"] = dict(
+    level="translation_validation",
+    text="check_integrand_arity runs on integrand skeletons in real and complex mode; whenever it accepts, z3 must "
+         "prove the integrand linear (antilinear in the test function in complex mode) jointly in all parts of each "
+         "argument number, for all field and argument values; an accepted integrand with a replayed non-linearity "
+         "is a violation; rejected integrands need no proof.",
+    technique="SMT decision of semantic multilinearity (z3 NRA over complex pairs) for every accepted integrand",
+    design="§4 C14", engine="E1")
+
 NOT_APPLICABLE = {
     "C11": "Signature injectivity is injectivity of string renderings (repr/str, numpy array printing, float "
            "formatting) composed with sha512: CrossHair cannot confirm it, z3/cvc5 string theories answer unknown, "
